@@ -17,8 +17,8 @@ BOUNDS = {
              'each) and 1 pair with <= 2 preemptions; nested: 7 outer templates x 10 inner formulas x 3 targets x every callback '
              'invocation, depth 1, and depth 2 for 3 inner x 3 targets; bindings: all sequences of <= 2 binding operations on A x '
              '5 probes on B',
-    'thorough': 'threads: all 64 ordered pairs x 2 starts with <= 1 preemption, 16 pairs with <= 2 preemptions, 2 pairs with <= 3 '
-                '(capped at 150 000 executions per shard; the cap is reported); nested depth 2 for all inner formulas; binding '
+    'thorough': 'threads: all 64 ordered pairs x 2 starts with <= 1 preemption, 8 pairs with <= 2 preemptions, 2 pairs (the '
+                'two shortest formulas) with <= 3 (a cap of 150 000 executions per shard exists and is reported if hit); nested depth 2 for all inner formulas; binding '
                 'sequences of <= 3',
 }
 ASSUMPTIONS = ['scheduling granularity = source line of hotxlfp code + calls of ply.lex Lexer.input/token/clone; a lost update '
@@ -66,8 +66,10 @@ class Threads(Sub):
             P3 = []
         else:
             P1 = [(i, j) for i in range(n) for j in range(n)]
-            P2 = [(i, (i + k) % n) for i in range(n) for k in (1, 3)]
-            P3 = [(0, 1), (4, 6)]
+            P2 = [(i, (i + 3) % n) for i in range(n)]
+            # three preemptions on the two shortest formulas (~35 scheduling points each): a shard (= fixed
+            # first preemption) holds at most ~2 000 executions
+            P3 = [(2, 3), (3, 2)]
         return P1, P2, P3
 
     def cases(self, tier, unit):
